@@ -43,11 +43,21 @@ func firstLine(s string) string {
 	return ""
 }
 
+// wallFactor: a solver budget of t seconds is t seconds of CPU time (ulimit -t, so that the verdict does not depend
+// on how loaded the machine is) and at most wallFactor*t seconds of wall-clock time (the back end's own timeout).
+const wallFactor = 6
+
+// limited wraps a solver command line in a CPU-time limit.
+func limited(s solverSpec, file string, timeoutS int) []string {
+	argv := s.argv(file, timeoutS*wallFactor)
+	return append([]string{"sh", "-c", fmt.Sprintf("ulimit -c 0; ulimit -t %d; exec \"$@\"", timeoutS), "sh"}, argv...)
+}
+
 func runOne(s solverSpec, file string, timeoutS int) solveResult {
-	ctx, cancel := context.WithTimeout(context.Background(), time.Duration(timeoutS+2)*time.Second)
+	ctx, cancel := context.WithTimeout(context.Background(), time.Duration(timeoutS*wallFactor+2)*time.Second)
 	defer cancel()
 	t0 := time.Now()
-	argv := s.argv(file, timeoutS)
+	argv := limited(s, file, timeoutS)
 	out, _ := exec.CommandContext(ctx, argv[0], argv[1:]...).CombinedOutput()
 	fl := firstLine(string(out))
 	res := solveResult{verdict: "unknown", solver: s.name, ms: time.Since(t0).Milliseconds(), output: string(out), all: map[string]string{}}
@@ -58,9 +68,28 @@ func runOne(s solverSpec, file string, timeoutS int) solveResult {
 	return res
 }
 
+// rescueSolvers: further configurations of the same back ends, tried only after every default configuration
+// answered unknown. A quantified obligation that needs model-based instantiation is decided or given up
+// ("incomplete quantifiers") depending on the search order; another seed is another proof search, and
+// "unsat" from any configuration is as conclusive as from the default one.
+var rescueSolvers = []solverSpec{
+	{"z3-new/seed1", func(f string, t int) []string { return []string{"z3-new", fmt.Sprintf("-T:%d", t), "smt.random_seed=1", f} }},
+	{"z3-new/seed2", func(f string, t int) []string { return []string{"z3-new", fmt.Sprintf("-T:%d", t), "smt.random_seed=2", f} }},
+	{"z3-new/seed3", func(f string, t int) []string { return []string{"z3-new", fmt.Sprintf("-T:%d", t), "smt.random_seed=3", f} }},
+	{"z3-new/noauto", func(f string, t int) []string { return []string{"z3-new", fmt.Sprintf("-T:%d", t), "smt.auto_config=false", f} }},
+	{"z3/seed1", func(f string, t int) []string { return []string{"z3", fmt.Sprintf("-T:%d", t), "smt.random_seed=1", f} }},
+	{"cvc5/enum", func(f string, t int) []string {
+		return []string{"cvc5", fmt.Sprintf("--tlimit=%d", t*1000), "--produce-models", "--enum-inst", f}
+	}},
+}
+
 // raceSolvers runs the installed solvers on file; first definitive answer wins.
 func raceSolvers(file string, timeoutS int, useAll bool) solveResult {
-	ctx, cancel := context.WithTimeout(context.Background(), time.Duration(timeoutS+5)*time.Second)
+	return raceSpecs(solvers, file, timeoutS, useAll)
+}
+
+func raceSpecs(solvers []solverSpec, file string, timeoutS int, useAll bool) solveResult {
+	ctx, cancel := context.WithTimeout(context.Background(), time.Duration(timeoutS*wallFactor+5)*time.Second)
 	defer cancel()
 	type one struct {
 		name, verdict, out string
@@ -71,7 +100,7 @@ func raceSolvers(file string, timeoutS int, useAll bool) solveResult {
 		s := s
 		go func() {
 			t0 := time.Now()
-			argv := s.argv(file, timeoutS)
+			argv := limited(s, file, timeoutS)
 			cmd := exec.CommandContext(ctx, argv[0], argv[1:]...)
 			var out bytes.Buffer
 			cmd.Stdout = &out
@@ -245,17 +274,27 @@ func discharge(obls []*Oblig, workdir string, timeoutS, retryS int, useAll bool,
 				}
 				return
 			}
+			// the sliced script has fewer assumptions: only "unsat" is conclusive on it
+			sf := ""
+			if ss := o.gen.slicedScript(o); ss != "" {
+				sf = filepath.Join(workdir, sanitize(o.Name)+".sliced.smt2")
+				os.WriteFile(sf, []byte(ss), 0o644)
+			}
+			slicedOK := func(rs solveResult) bool {
+				if rs.verdict != "unsat" {
+					return false
+				}
+				o.Solver, o.Ms, o.Output, o.Status = rs.solver+"(sliced)", rs.ms, rs.output, "discharged"
+				return true
+			}
 			if !useAll {
-				// stage 0: sliced script (fewer assumptions: only "unsat" is conclusive)
-				if ss := o.gen.slicedScript(o); ss != "" {
-					sf := filepath.Join(workdir, sanitize(o.Name)+".sliced.smt2")
-					os.WriteFile(sf, []byte(ss), 0o644)
+				// stage 0: sliced script, short budgets
+				if sf != "" {
 					rs := runOne(solvers[0], sf, 2)
 					if rs.verdict != "unsat" {
 						rs = raceSolvers(sf, 3, false)
 					}
-					if rs.verdict == "unsat" {
-						o.Solver, o.Ms, o.Output, o.Status = rs.solver+"(sliced)", rs.ms, rs.output, "discharged"
+					if slicedOK(rs) {
 						return
 					}
 				}
@@ -265,8 +304,23 @@ func discharge(obls []*Oblig, workdir string, timeoutS, retryS int, useAll bool,
 			if useAll || r.verdict == "unknown" {
 				r = raceSolvers(f, timeoutS, useAll)
 			}
-			if r.verdict == "unknown" && retryS > timeoutS {
-				r = raceSolvers(f, retryS, useAll)
+			if r.verdict == "unknown" {
+				// last stage, long budget: every configuration (default back ends plus other seeds / instantiation
+				// modes) on the sliced script and then on the full one. Obligations normally never get here; the
+				// stage exists so that a proof that is found in 1 s on an idle machine is not reported as a
+				// violation because the machine was loaded or the default search order gave up.
+				every := append(append([]solverSpec{}, solvers...), rescueSolvers...)
+				if retryS < timeoutS {
+					retryS = timeoutS
+				}
+				if sf != "" && slicedOK(raceSpecs(every, sf, retryS, false)) {
+					return
+				}
+				if rr := raceSpecs(every, f, retryS, false); rr.verdict != "unknown" {
+					r = rr
+				} else {
+					r.output += rr.output
+				}
 			}
 			o.Solver, o.Ms, o.Output = r.solver, r.ms, r.output
 			switch r.verdict {
